@@ -24,6 +24,13 @@ CLAIMED = {
              "independent of round/ceil/floor/%; rejection iff out of range; frame condition on untouched slots; insert-then-select round trip for "
              "matching pairs; scalar call == tensor call.",
         ref="6/C02"),
+    "C03": dict(
+        text="One simulation step of each of the eight neuron classes from an ARBITRARY symbolic state (voltage, refractory time within the inductive "
+             "invariant 0<=refrac<=refrac_t, adaptation state) and arbitrary input, against the documented update equations: spikes, voltage, reset, "
+             "refractory time, adaptation (incl. freezing while refractory and batch mean), spike attribute; (dt, refrac_t) incl. 0 and non-multiples; "
+             "batch 1-2; refrac_lock on/off; adaptation on/off/None+train/None+eval. Spiking neurons are followed through the refractory window with "
+             "arbitrary inputs. Functional kernels additionally with symbolic hyper-parameters.",
+        ref="6/C03"),
 }
 
 REASONS = {}
